@@ -156,7 +156,7 @@ func parseIndexSection(sectionContents []byte, sectionsStart uint64, sos []secti
 	}
 	respSectionOffset := sectionsStart + respSectionRelOffset
 	makeRelativeToStream := func(offset, length uint64) (uint64, uint64, error) {
-		if offset+length > respso.Length {
+		if offset+length < offset || offset+length > respso.Length {
 			return 0, 0, errors.New("bundle.index: response length out-of-range")
 		}
 		return respSectionOffset + offset, length, nil
@@ -217,7 +217,7 @@ func parseIndexSectionWithVariants(sectionContents []byte, sectionsStart uint64,
 	}
 	respSectionOffset := sectionsStart + respSectionRelOffset
 	makeRelativeToStream := func(offset, length uint64) (uint64, uint64, error) {
-		if offset+length > respso.Length {
+		if offset+length < offset || offset+length > respso.Length {
 			return 0, 0, errors.New("bundle.index: response length out-of-range")
 		}
 		return respSectionOffset + offset, length, nil
@@ -498,18 +498,15 @@ func loadMetadata(bs []byte) (*meta, error) {
 	offset := sectionsStart
 
 	for _, so := range sos {
-		if _, exists := knownSections[so.Name]; !exists {
-			continue
-		}
-		if so.Name == "responses" {
-			continue
-		}
-		if uint64(len(bs)) <= offset {
-			return nil, &LoadMetadataError{fmt.Errorf("bundle: section %q's computed offset %q out-of-range.", so.Name, offset), FormatError, fallbackURL}
-		}
+		// Every section, known or not, occupies so.Length bytes: check that it lies inside the
+		// input (without wrapping around) and step over it even when its content is not parsed.
 		end := offset + so.Length
-		if uint64(len(bs)) <= end {
+		if end < offset || uint64(len(bs)) < end {
 			return nil, &LoadMetadataError{fmt.Errorf("bundle: section %q's end %q out-of-range.", so.Name, end), FormatError, fallbackURL}
+		}
+		if _, exists := knownSections[so.Name]; !exists || so.Name == "responses" {
+			offset = end
+			continue
 		}
 
 		sectionContents := bs[offset:end]
